@@ -9,7 +9,7 @@ CONSTANTS
   MaxDepth = 1
   FreeDepth = 1
   Canonical = TRUE
-  Variant = "wrap_inputs0"
+  Variant = "cast_unsafe"
   ArrayProto = "fixed"
 VIEW View
 INVARIANT WrapsAsResolvedSignal
